@@ -522,6 +522,12 @@ class MarkdownNormalizer(Renderer):
         # A multi-line (setext) heading becomes a one-line ATX heading: a soft line break
         # inside it would end the heading and start a paragraph.
         children_content = re.sub(r"(?<!\\)\n", " ", children_content)
+        # A final run of `#` (after a space, or alone) would be read as the optional closing
+        # sequence of the ATX heading and dropped.
+        closing_like = re.search(r"(?:^|(?<=[ \t]))#+$", children_content)
+        if closing_like:
+            start = closing_like.start()
+            children_content = children_content[:start] + "\\" + children_content[start:]
         self._in_heading = False
         self._current_inline_text = ""
         # If heading ends with hard break, don't add extra newline
